@@ -81,7 +81,10 @@ func ExprString(e Expr) string {
 	case Group:
 		return "(" + ExprString(x.E) + ")"
 	case Not:
-		// "!!x" and "!-1" are never produced: operand is wrapped unless it is a primary
+		// "!-1" is never produced: the operand is wrapped unless it is a primary; a negation of a negation is "!!x"
+		if _, nn := x.E.(Not); nn {
+			return "!" + ExprString(x.E)
+		}
 		if prec(x.E) < 7 {
 			return "!(" + ExprString(x.E) + ")"
 		}
